@@ -12,7 +12,7 @@ SEND_ACTIONS = [["send_text", "late-€"], ["send_binary", "0001ff"], ["ping", "
 DATA_OPS = (wire.TEXT, wire.BINARY, wire.CONT)
 
 
-def client_frames(sim):
+def client_frames(sim, with_failed_close=False):
     """[(log index, Frame)] of everything the client wrote after its HTTP request,
     or a problem string."""
     out = []
@@ -20,7 +20,7 @@ def client_frames(sim):
     buf = bytearray()
     seen_http = False
     for i, e in enumerate(sim.log):
-        if e[0] != "send":
+        if e[0] != "send" and not (with_failed_close and e[0] == "send_fail" and e[2][:1] == b"\x88"):
             continue
         data = e[2]
         if not seen_http:
@@ -78,6 +78,8 @@ class C08(Prop):
             "seg": gen.segmentation(),
             # None and 0 both DISABLE the close timeout (documented); 30 s is far beyond these histories
             "close_timeout": st.sampled_from([None, None, 0, 30.0]),
+            # the write that carries the client's Close frame (its own or the echo) fails without breaking the transport
+            "close_write_fault": st.sampled_from([None, None, None, "timeout", "oserror"]),
             # an earlier connection in the same process (same WebSocket object or another one) and how it ended
             "prelude": gen.prelude(),
             # a second live connection in the same process (interleaved with this one, or blocked in a send)
@@ -113,8 +115,18 @@ class C08(Prop):
                  dict(base, mode="close_in_closing", server_close={"kind": "close", "code": None}),
                  dict(base, mode="crossing", server_close={"kind": "close", "code": 1000, "reason": "crossed"})]
         from harness.runner import with_noise, with_companion
+
+        def close_write_fails():
+            send = {"when": ["every"], "do": [SEND_ACTIONS[0]]}
+            for b in small + [dict(base, mode="client_only", server_close={"kind": "close", "code": 1000, "reason": ""})]:
+                for how in ("timeout", "oserror"):
+                    for ct in (None, 30.0):
+                        for eof in ("after_pause", "at_once"):
+                            for sends in ([], [send]):
+                                yield dict(b, close_write_fault=how, close_timeout=ct, eof=eof, sends=sends)
         return [Enumeration("closing_handshakes_after_every_kind_of_earlier_connection", after_every_prelude,
-                            exhaustive=True), with_noise(small), with_companion(small)]
+                            exhaustive=True), with_noise(small), with_companion(small),
+                Enumeration("the_close_frame_cannot_be_written", close_write_fails, exhaustive=True)]
 
     def run_case(self, case):
         mode = case["mode"]
@@ -154,14 +166,19 @@ class C08(Prop):
         seg = effective_seg(case["seg"], reply_len + len(pre.data) + len(mid.data) + 140)
         script = [["wait_request"], ["stream", [["reply", None], ["bytes", bytes(pre.data)]], seg, 0.0]]
         eof = case["eof"]
+        cwf = case.get("close_write_fault")
+        if cwf and eof == "never":
+            eof = "after_pause"
         if crossing:
             whole = bytes(pre.data) + bytes(mid.data) + bytes(sc_built.data)
             script = [["wait_request"], ["stream", [["reply", None], ["bytes", whole]], case["seg"] if case["seg"] in (
                 "whole", "bytewise") else "whole", 0.0]]
         elif mode == "client_first":
-            script += [["wait_close"], ["stream", [["bytes", bytes(mid.data) + bytes(sc_built.data)]], seg, 0.5]]
+            # (a Close frame that could not be written never reaches the server: it then closes on its own account)
+            script += [["pause", 1.0] if cwf else ["wait_close"],
+                       ["stream", [["bytes", bytes(mid.data) + bytes(sc_built.data)]], seg, 0.5]]
         elif mode == "client_only":
-            script += [["wait_close"], ["stream", [["bytes", bytes(mid.data)]], seg, 0.5]]
+            script += [["pause", 1.0] if cwf else ["wait_close"], ["stream", [["bytes", bytes(mid.data)]], seg, 0.5]]
             if eof == "never":
                 eof = "after_pause"
         else:
@@ -173,7 +190,8 @@ class C08(Prop):
         elif eof == "at_once":
             script.append(["eof", 0.0])
         scn = build.scenario(script, reactions=reactions, horizon=500.0,
-                             connect_opts={"close_timeout": case.get("close_timeout"), "ping_rate": 0})
+                             connect_opts={"close_timeout": case.get("close_timeout"), "ping_rate": 0},
+                             attempt_extra={"faults": {"send_close": cwf}} if cwf else None)
         tr = simnet.run_scenario(scn)
         names = tr.names()
         labels = {"mode:" + ("crossing" if crossing else mode), "eof:" + eof, "close_timeout:%r" % (case.get("close_timeout"),)}
@@ -183,7 +201,11 @@ class C08(Prop):
         if tr.escaped:
             return failed("escaped_exception", tr.escaped, labels, True)
 
-        frames, problem = client_frames(tr.sim)
+        # (with an injected failure of the Close write the ATTEMPT stands for the frame: "exactly one" then means
+        # it is not tried again)
+        frames, problem = client_frames(tr.sim, with_failed_close=bool(cwf))
+        if cwf and any(e[0] == "send_fail" and e[2][:1] == b"\x88" for e in tr.sim.log):
+            labels.add("close_write_failed:" + cwf)
         if problem:
             return failed("invalid_client_frame", problem, labels, True)
         closes = [(li, f) for li, f in frames if f.opcode == wire.CLOSE]
